@@ -565,8 +565,41 @@ func c17Ops() []c17Op {
 			return func() { f0(); f() }
 		}
 		ops = append(ops, d)
+		// process state left by FAULTS: callers recover the documented panics (uninitialised point,
+		// lists of different lengths) of the variable-time and multi-scalar entry points - on public
+		// values, outside the traced region - and the very next library call is the traced operation.
+		// What an abandoned call leaves in shared scratch (a "variable time" flag, a dirty working set)
+		// must not change how the secret is processed.
+		if o.cost >= 1 || strings.Contains(o.name, "Mult") {
+			e := o
+			e.name = o.name + "/right-after-recovered-panics-of-the-variable-time-entry-points"
+			e.derived = true
+			e.cost = 3 // source-level monitor only
+			e.prep = func(s c17Secret, v int) func() {
+				f := o.prep(s, v)
+				c17RecoveredPanics()
+				return f
+			}
+			ops = append(ops, e)
+		}
 	}
 	return ops
+}
+
+// c17RecoveredPanics makes the documented panics of the multi-scalar entry points happen, on public
+// values, and recovers them.
+func c17RecoveredPanics() {
+	g := secp256k1.NewGeneratorPoint()
+	one := secp256k1.NewScalarFromUint64(1)
+	try := func(f func()) {
+		defer func() { _ = recover() }()
+		f()
+	}
+	try(func() { new(Point).MultiScalarMultVartime([]*Scalar{one, one, one}, []*Point{g, new(Point), g}) })
+	try(func() { new(Point).MultiScalarMultVartime([]*Scalar{one, one}, []*Point{g}) })
+	try(func() { new(Point).DoubleScalarMultBasepointVartime(one, one, new(Point)) })
+	try(func() { new(Point).MultiScalarMult([]*Scalar{one, one, one}, []*Point{g, g, new(Point)}) })
+	try(func() { new(Point).MultiScalarMultVartime([]*Scalar{one, one, one}, []*Point{g, g, new(Point)}) })
 }
 
 func mustHexBig(s string) *big.Int {
